@@ -16,7 +16,7 @@ THEOREMS = ["C10.c10_partial", "C10.split_witness", "C10.split_behaviour", "C10.
             "C10.terminate0_rule", "C10.reading_rule"]
 LEAN_MODULES = ["TbotVerif.Props.C10", "TbotVerif.Props.C10Cor"]
 QUICK_N, THOROUGH_N = 600, 20000
-QUICK_BUDGET, THOROUGH_BUDGET = 45, 1500
+QUICK_BUDGET, THOROUGH_BUDGET = 40, 900
 CASE_WALL = 25
 RULE = ("one run() context per case on a kept-alive machine (bash or dash, READ_CHUNK_SIZE 1/3/64/4096): an interactive "
         "command of 0-4 read-line steps with printed output of 0-10000 bytes between them (CR/LF mixes, prompt prefixes, "
@@ -479,16 +479,18 @@ def shrink_candidates(line):
 
 def exhaustive(params):
     """small scope: every command script of <= 3 steps over {print, read, exit 3} (exit last) with every
-    valid body of <= 3 operations over a 9-symbol alphabet, on bash"""
+    valid body of <= 2 operations over an 8-symbol alphabet, and of 3 operations ending in terminate /
+    terminate0, on bash"""
     step_alpha = ["P" + hx(b"a\n"), "R", "X3"]
-    op_alpha = ["l:78:0", "c:3", "rut:40", "ex:300:L61", "rup:-:300", "term", "term0", "raise", "probe:0"]
+    op_alpha = ["l:78:0", "c:3", "rut:40", "ex:150:L61", "term", "term0", "raise", "probe:0"]
     nxt = "P/./" + hx(b"n\n") + "/1"
+    bodies = [ops for no in (1, 2) for ops in itertools.product(op_alpha, repeat=no)]
+    bodies += [ops + (last,) for ops in itertools.product(op_alpha, repeat=2) for last in ("term", "term0")]
     for ns in range(0, 4):
         for steps in itertools.product(step_alpha, repeat=ns):
             if "X3" in steps[:-1]:
                 continue
-            for no in range(1, 4):
-                for ops in itertools.product(op_alpha, repeat=no):
-                    line = " ".join(["bash", "4096", "P", ".", lst(steps), nxt] + list(ops))
-                    if valid(line):
-                        yield line
+            for ops in bodies:
+                line = " ".join(["bash", "4096", "P", ".", lst(steps), nxt] + list(ops))
+                if valid(line):
+                    yield line
